@@ -73,8 +73,19 @@ def model_cmd(sub, lines=None):
     return o
 
 
+OBS = {"arg": None}     # the policy observed on the implementation's site witnesses (set by run())
+
+
+def model_cmd_args(args, lines):
+    common.ensure_model(PROP)
+    rc, o, e = common.sh([common.model_bin(PROP)] + args, input=("\n".join(lines) + "\n").encode(), timeout=900)
+    if rc != 0:
+        raise RuntimeError("c09_model %s failed rc=%d: %s" % (args, rc, e[-800:]))
+    return o
+
+
 def model_runs(scripts):
-    res = gen_c09.parse_model_output(model_cmd("run", scripts))
+    res = gen_c09.parse_model_output(model_cmd_args(["run"] + ([OBS["arg"]] if OBS["arg"] else []), scripts))
     if len(res) != len(scripts):
         raise RuntimeError("c09_model returned %d results for %d scripts" % (len(res), len(scripts)))
     return res
@@ -108,6 +119,9 @@ def judge_script(r, out):
     if got == em:
         return "hole:" + site, ""
     if got == es:
+        return "fixed:" + site, ""
+    if "obs" in r and got == gen_c09.expected_transcript(r["obs"], r["init"]):
+        # the machine under the tests actually observed on this binary (some recorded holes repaired, others not)
         return "fixed:" + site, ""
     return "mismatch", "main equals neither mech nor spec"
 
@@ -166,7 +180,9 @@ def report_script(rep, impl, row, glob, origin, fmap, stats, strict):
     elif c.startswith("hole:"):
         d = "stream built to avoid the recorded findings reached check site %s" % c[5:]
     elif c.startswith("fixed:"):
-        rep.notes.append("check site %s: main now behaves like spec on %s (finding repaired? update mech_chk in coq/C09/ConstPtr.v)" % (c[6:], s))
+        msg = "check site %s: main now refuses what the model of the code accepts (finding repaired? update mech_chk in coq/C09/ConstPtr.v); first seen on %s" % (c[6:], s)
+        if not any(n.startswith("check site %s:" % c[6:]) for n in rep.notes):
+            rep.notes.append(msg)
         return
     small = s
     try:
@@ -223,12 +239,25 @@ def run(rep):
     for h in holes:
         if h not in fmap:
             rep.violation("site", {"site": h}, "model policy lacks test %s but no finding records it" % h, True)
+    OBS["arg"] = None
     rows = run_scripts(impl, [s["script"] for s in sites], [()] * len(sites))
     evaluations += len(rows)
     site_stats = collections.Counter()
+    obs_chk, obs_noeff = [], []
     for st, row in zip(sites, rows):
         report_script(rep, impl, row, (), "witness of check site " + st["name"], fmap, site_stats, strict=False)
         nontrivial.add(row[1])
+        # which tests does THIS binary make? (the witness is refused <=> the test is there)
+        refused = row[3][0] == 1 and row[3][1] == gen_c09.expected_transcript(row[2]["spec"], row[2]["init"])[0]
+        if refused if row[4] != "mismatch" else st["chk"]:
+            obs_chk.append(st["name"])
+        if not st["eff"]:            # (whether an accepted s.m++ writes cannot be seen on a refused witness: keep the model's entry)
+            obs_noeff.append(st["name"])
+    if sorted(obs_chk) != sorted(s["name"] for s in sites if s["chk"]):
+        # some recorded hole was repaired: multi-step scripts are judged against the machine with the observed tests too
+        OBS["arg"] = ",".join(obs_chk) + ";" + ",".join(obs_noeff)
+        rep.notes.append("tests observed on this binary differ from coq/C09/ConstPtr.v mech_chk: additionally present %s"
+                         % sorted(set(obs_chk) - set(s["name"] for s in sites if s["chk"])))
     samples.append({"site": sites[2]["name"], "script": sites[2]["script"], "program": rows[2][1], "judgement": rows[2][4]})
 
     lap("sites")
@@ -287,7 +316,8 @@ def run(rep):
                                   "matrix cell %s/%s is not refused and no finding covers check site %s" % (key + (site,)))
         elif m1 == c["spec"]:
             mstat["fixed:" + site] += 1
-            rep.notes.append("matrix cell %s/%s is now refused (check site %s repaired? update mech_chk)" % (key + (site,)))
+            if not any(n.startswith("matrix: check site %s " % site) for n in rep.notes):
+                rep.notes.append("matrix: check site %s now refuses (first cell %s/%s; repaired? update mech_chk)" % ((site,) + key))
         else:
             mstat["mismatch"] += 1
             if mstat["mismatch"] > 8:          # the first eight are reported with a replay each, the rest are counted
